@@ -10,7 +10,7 @@ while IFS='|' read -r name expr; do
   cp /repo/$FILE $S/$FILE
   sed -i -E "$expr" $S/$FILE
   if cmp -s /repo/$FILE $S/$FILE; then echo "$name: SED DID NOT CHANGE ANYTHING"; continue; fi
-  out=$(VERIF_REPO=$S ./check $PID 2>&1); code=$?
+  out=$(VERIF_REPO=$S VERIF_EVIDENCE_DIR=$S/evidence ./check $PID 2>&1); code=$?
   echo "$name: exit $code | $(echo "$out" | grep -E 'VIOLATION|UNDECIDED' | head -2 | cut -c1-230 | tr '\n' ' ')"
   cp /repo/$FILE $S/$FILE
 done
